@@ -642,11 +642,15 @@ impl World {
             let len = self.facts.len();
             self.facts.merge(new_facts);
             if self.facts.len() == len {
+                // the fact budget also holds when no rule produced anything new
+                if self.facts.len() > limits.max_facts as usize {
+                    break Err(Execution::RunLimit(crate::error::RunLimit::TooManyFacts));
+                }
                 break Ok(());
             }
 
             index += 1;
-            if index == limits.max_iterations {
+            if index >= limits.max_iterations {
                 break Err(Execution::RunLimit(
                     crate::error::RunLimit::TooManyIterations,
                 ));
